@@ -19,6 +19,9 @@ fn main() {
         Some("meta") => service::meta(&args[1..]),
         Some("raw") => service::raw(&args[1..]),
         Some("bind") => service::bind(&args[1..]),
+        Some("wire-status") => service::wire_status(&args[1..]),
+        Some("wire-de") => service::wire_de(&args[1..]),
+        Some("wire-ser") => service::wire_ser(&args[1..]),
         Some("amz-date") => service::amz_date(&args[1..]),
         Some("secret") => secret::run(),
         Some("sigv4") => sigv4::one(&args[1..]),
